@@ -21,7 +21,7 @@ for name in "$@"; do
     mkdir -p tests && cp $d/demo.rs tests/seed_demo.rs
     mode=native
     # demos that need a release build or the hook cfg say so in their README / source
-    grep -q -- "--release --test" $d/README.md 2>/dev/null && feats="$feats --release"
+    [ -z "${CONFIRM_NO_RELEASE:-}" ] && grep -q -- "--release --test" $d/README.md 2>/dev/null && feats="$feats --release"
     grep -q "cfg(triomphe_verif)\|verif_hooks" $d/demo.rs 2>/dev/null && export RUSTFLAGS="--cfg triomphe_verif"
     r=$(cargo test --offline $feats --test seed_demo 2>&1 | grep -E "test result|error(\[|:)|signal|SIG" | head -2 | tr '\n' ' ')
     if echo "$r" | grep -q "test result: ok"; then
